@@ -24,10 +24,12 @@ type Ctx struct {
 	closures map[string]*core.Closure
 	tracers  map[string]*core.Tracer
 	roles    map[string]*ssa.Function
+
+	transparentCache map[*ssa.Function]bool
 }
 
 func NewCtx(p *core.Prog, r *core.Report, graph, tier string) *Ctx {
-	c := &Ctx{P: p, R: r, Graph: graph, Tier: tier, closures: map[string]*core.Closure{}, tracers: map[string]*core.Tracer{}, roles: map[string]*ssa.Function{}}
+	c := &Ctx{P: p, R: r, Graph: graph, Tier: tier, closures: map[string]*core.Closure{}, tracers: map[string]*core.Tracer{}, roles: map[string]*ssa.Function{}, transparentCache: map[*ssa.Function]bool{}}
 	c.G = p.VTA
 	if graph == "cha" {
 		c.G = p.CHA
@@ -224,6 +226,33 @@ func (c *Ctx) bySignature(rule, role, closure string, pred func(*types.Signature
 	for _, fn := range c.Closure(rule, closure).Sorted() {
 		if fn.Parent() == nil && fn.Synthetic == "" && pred(fn.Signature) {
 			found = append(found, fn)
+		}
+	}
+	if len(found) > 1 {
+		// several functions of that shape: the role is played by the one called from outside the group;
+		// the others are its helpers (called only by members of the group)
+		cand := map[*ssa.Function]bool{}
+		for _, x := range found {
+			cand[x] = true
+		}
+		var entry []*ssa.Function
+		for _, x := range found {
+			outside := !c.P.OnlyStaticCallers(x)
+			for _, site := range c.P.CallIndex().Sites[x] {
+				caller := site.Parent()
+				for caller.Parent() != nil {
+					caller = caller.Parent()
+				}
+				if !cand[caller] {
+					outside = true
+				}
+			}
+			if outside {
+				entry = append(entry, x)
+			}
+		}
+		if len(entry) == 1 {
+			found = entry
 		}
 	}
 	var f *ssa.Function
